@@ -93,6 +93,11 @@ def gen_entry(rnd, name, kind, rich=True, bad_acl=False, enc=None, names=()):
                     e["extras"].append(("faCe", rnd.choice(ACE_TEXTS).encode()))
             if rnd.random() < 0.3:
                 e["extras"].append((rnd.choice(PRIV_TYPES), b"tail"))
+        # a byte-identical repeat of an unknown chunk, not next to the original (seeded C13-8: a builder that drops an extra
+        # chunk it has already seen)
+        plain = [x for x in e["extras"] if x[0] not in ("faCl", "faCe")]
+        if plain and rnd.random() < 0.3:
+            e["extras"].append(rnd.choice(plain))
         if bad_acl and rnd.random() < 0.5:
             e["extras"].append(("faCe", rnd.choice([b"nonsense", b":u:x:maybe:r", b"\xff\xfe", b":q:x:allow:r"])))
     return e
@@ -120,6 +125,8 @@ def gen_spec(rnd, flavour, max_entries=6, rich=True, bad_acl=False, names=None, 
         if solid_here:
             senc = enc if flavour == "encsolid" else None
             sx = [(rnd.choice(PRIV_TYPES + ANC_TYPES), b"solid-extra")] if rnd.random() < 0.3 else []
+            if sx and rnd.random() < 0.5:
+                sx = sx + [(rnd.choice(PRIV_TYPES), b"")] + sx          # the same chunk twice around another one
             if rnd.random() < 0.07:       # an empty solid block
                 items.append(("solid", rnd.choice([0, 2]), senc[0] if senc else 0, senc[1] if senc else 0, [], []))
             k = rnd.randint(1, 3)
